@@ -20,6 +20,7 @@
 #include "tcp_server.h"
 
 #include <limits>
+#include <memory>
 
 #include <tbox/base/log.h>
 #include <tbox/base/assert.h>
@@ -145,6 +146,22 @@ void TcpServer::cleanup()
     stop();
 
     d_->sp_acceptor->cleanup();
+
+    //! cleanup() may be called from one of these callbacks: it has to stay alive until it has returned
+    if (d_->cb_level > 0) {
+        struct Keep {
+            ConnectedCallback       connected_cb;
+            DisconnectedCallback    disconnected_cb;
+            ReceiveCallback         receive_cb;
+            SendCompleteCallback    send_complete_cb;
+        };
+        auto keep = std::make_shared<Keep>();
+        keep->connected_cb.swap(d_->connected_cb);
+        keep->disconnected_cb.swap(d_->disconnected_cb);
+        keep->receive_cb.swap(d_->receive_cb);
+        keep->send_complete_cb.swap(d_->send_complete_cb);
+        d_->wp_loop->runNext([keep] { }, "TcpServer::cleanup, release callbacks");
+    }
 
     d_->connected_cb = nullptr;
     d_->disconnected_cb = nullptr;
